@@ -307,7 +307,7 @@ def seek_read_script(ctx, rng, fs, path, content, info):
 
 def model_correspondence(ctx):
     """differential runs of the extracted Coq models of this property's cores against the real classes"""
-    lib.corr_modules(ctx, SPEC, ['fat_table_corr', 'fat_read_corr', 'fat_dir_corr'])
+    lib.corr_modules(ctx, SPEC, ['fat_table_corr', 'fat_read_corr', 'fat_dir_corr', 'fat_walk_corr'])
 
 
 def replay(ctx, obj):
